@@ -23,23 +23,12 @@ Theorem ctor_flat_partial : forall k raw, exists v, mkc k raw = Ok v /\
 Proof. exact ctor_flat_e. Qed.
 Print Assumptions ctor_flat_partial.
 
-(* ... but not exactly: merging two adjacent external links drops `external` (F10) *)
-Theorem ctor_flat_refuted : exists k raw v, mkc k raw = Ok v /\
-  flat v <> pushk k (concat (map flat raw)).
-Proof. exact ctor_flat_exact_refuted. Qed.
-Print Assumptions ctor_flat_refuted.
-
 (* upper() / lower(): every unprotected character is converted in place, protected text and
    symbols are untouched, markup stays where it was *)
 Theorem case_flat_partial : forall up t, exists v, case_c up t = Ok v /\
   erase (flat v) = erase (map (conv_pair up) (flat t)).
 Proof. exact case_flat_e. Qed.
 Print Assumptions case_flat_partial.
-
-Theorem case_flat_refuted : exists up t v, case_c up t = Ok v /\
-  flat v <> map (conv_pair up) (flat t).
-Proof. exact case_flat_exact_refuted. Qed.
-Print Assumptions case_flat_refuted.
 
 (* a + b *)
 Theorem add_flat_partial : forall a b, exists v, add a b = Ok v /\
@@ -111,11 +100,6 @@ Print Assumptions eq_sound.
 Theorem eq_refl_all : forall a, rt_eqb a a = true.
 Proof. exact rt_eqb_refl. Qed.
 Print Assumptions eq_refl_all.
-
-(* ... but == does not see HRef.external (F10) *)
-Theorem eq_flat_refuted : exists a b, rt_eqb a b = true /\ flat a <> flat b.
-Proof. exact eq_exact_refuted. Qed.
-Print Assumptions eq_flat_refuted.
 
 (* grouping while building: an empty part, and wrapping some of the parts into a nested Text,
    change nothing in the object that is built -- hence neither == nor the rendering *)
